@@ -380,11 +380,11 @@ fn huge_detection(_t: Tier) -> BoxedStrategy<Case> {
 
 fn subs() -> Vec<Sub> {
     vec![
-        gen_sub("big_payloads", big_payloads, |t| t.pick(60, 1_000), check),
+        gen_sub("big_payloads", big_payloads, |t| t.pick(200, 1_000), check),
         gen_sub("huge_detection", huge_detection, |t| t.pick(4, 24), check),
-        gen_sub("texts", texts, |t| t.pick(40_000, 1_000_000), check),
-        gen_sub("data_urls", data_urls, |t| t.pick(6_000, 150_000), check),
-        gen_sub("detection", detect, |t| t.pick(6_000, 150_000), check),
+        gen_sub("texts", texts, |t| t.pick(200_000, 1_000_000), check),
+        gen_sub("data_urls", data_urls, |t| t.pick(30_000, 150_000), check),
+        gen_sub("detection", detect, |t| t.pick(30_000, 150_000), check),
     ]
 }
 
